@@ -85,7 +85,7 @@ def setup(ctx):
 
     def kf_d16(f):
         bins = list(P.TkCfg(**f["input"]["cfg"]).tk().velocity_bins)
-        return not good_bins(bins) and f["clause"] in ("tokenise-raises", "closed", "encode-raises", "decode-encode", "notes")
+        return d16_bins(bins) and f["clause"] in ("tokenise-raises", "closed", "encode-raises", "decode-encode", "notes")
     ctx.kf_predicates["D15"] = kf_d15
     ctx.kf_predicates["D16"] = kf_d16
 
